@@ -11,6 +11,8 @@ mod core;
 mod tables;
 mod literal;
 mod spans;
+mod values;
+mod pegcmd;
 
 use std::io::{BufRead, Write};
 use std::panic::{catch_unwind, AssertUnwindSafe};
@@ -42,6 +44,8 @@ fn main() {
         "tables" => tables::handle,
         "literal" => literal::handle,
         "span" => spans::handle,
+        "value" => values::handle,
+        "peg" => pegcmd::handle,
         _ => {
             eprintln!("unknown command {cmd}");
             std::process::exit(2);
